@@ -49,17 +49,26 @@ type Scenario struct {
 	InitialHeight uint64    `json:"initial_height"`
 	Chain         []pw.Step `json:"chain"`
 	Advs          []Adv     `json:"advs"`
+	// P2POnly > 0: the last P2POnly blocks of the chain are NOT on the DA layer; the node gets them over
+	// P2P only (so nothing genuine on the DA layer can justify marking them DA-included)
+	P2POnly int `json:"p2p_only,omitempty"`
 }
 
-var kinds = []string{"f6-replayed-txs", "f6-replayed-txs", "f1-header", "f1-data", "f1-pair", "f1-pair", "f2-header", "f2-data", "f3-unsigned", "f3-garbage-sig", "f4-chainid", "f4-past", "f4-future", "f5-header-bytes", "f5-data-bytes", "foreign-address"}
+var kinds = []string{"f7-header-copy", "f7-header-copy", "f6-replayed-txs", "f6-replayed-txs", "f1-header", "f1-data", "f1-pair", "f1-pair", "f2-header", "f2-data", "f3-unsigned", "f3-garbage-sig", "f4-chainid", "f4-past", "f4-future", "f5-header-bytes", "f5-data-bytes", "foreign-address"}
 
 func gen(t *rapid.T) Scenario {
 	sc := Scenario{InitialHeight: c02gen.GenInitial(t)}
 	sc.Chain = c02gen.GenChain(t, world.Scale(6, 12))
+	if rapid.IntRange(0, 2).Draw(t, "p2ponly") == 0 {
+		sc.P2POnly = rapid.IntRange(1, len(sc.Chain)).Draw(t, "p2ponlyn")
+	}
 	n := rapid.IntRange(1, 4).Draw(t, "nadv")
 	for i := 0; i < n; i++ {
 		a := Adv{Kind: rapid.SampledFrom(kinds).Draw(t, "kind"), Target: rapid.IntRange(1, len(sc.Chain)).Draw(t, "target"),
 			Mut: rapid.IntRange(0, 400).Draw(t, "mut"), Ingress: rapid.SampledFrom([]string{"da", "da", "p2p"}).Draw(t, "ingress"), Early: rapid.Bool().Draw(t, "early")}
+		if sc.P2POnly > 0 {
+			a.Ingress = "da"
+		}
 		sc.Advs = append(sc.Advs, a)
 	}
 	return sc
@@ -171,6 +180,22 @@ func build(a Adv, c *fw.Chain) item {
 			it.sd = &types.SignedData{Data: d, Signature: sign(advPriv, bz), Signer: signer}
 			it.replayed = true
 		}
+	case "f7-header-copy":
+		// a field-for-field copy of a genuine header (same header hash: the hash covers neither the
+		// signature nor the signer) that the proposer did not sign
+		h := *base
+		switch a.Mut % 3 {
+		case 0:
+			h.Signature = nil
+		case 1:
+			g := sha256Sum([]byte(fmt.Sprint("copy-garbage", a.Mut)))
+			h.Signature = append(g, g...)
+		default:
+			h.Signer = types.Signer{PubKey: advPub, Address: proposer}
+			payload, _ := h.Header.MarshalBinary()
+			h.Signature = sign(advPriv, payload)
+		}
+		it.hdr = &h
 	case "f2-header":
 		it.hdr = forgeHeader(func(h *types.SignedHeader) {
 			switch a.Mut % 4 {
@@ -326,7 +351,7 @@ func mutate(b []byte, m int) {
 
 // world runs a full node over the DA double with the genuine blobs (one DA height per block) and,
 // optionally, the adversarial items; returns the node after quiescence.
-func runWorld(c *fw.Chain, items []item, withAdv bool, root string) (*fw.Full, *world.Verdict) {
+func runWorld(c *fw.Chain, items []item, withAdv bool, root string, p2pOnly int) (*fw.Full, *world.Verdict) {
 	da := world.NewDADbl(0)
 	f, err := fw.NewFull(c, root, da)
 	if err != nil {
@@ -353,12 +378,28 @@ func runWorld(c *fw.Chain, items []item, withAdv bool, root string) (*fw.Full, *
 		}
 	}
 	for i, b := range c.Blocks {
+		if p2pOnly > 0 && i >= len(c.Blocks)-p2pOnly {
+			continue // not on the DA layer
+		}
 		da.Place(uint64(2+i), b.HeaderBlob)
 		if b.DataBlob != nil {
 			da.Place(uint64(2+i), b.DataBlob)
 		}
 	}
 	da.SetHead(uint64(2 + len(c.Blocks) + 1))
+	if p2pOnly > 0 {
+		// the whole genuine chain is available over P2P (header and data stores)
+		for i, b := range c.Blocks {
+			gh, _ := fw.DecodeHeader(b.HeaderBlob)
+			_ = f.N.HStore.Append(context.Background(), gh)
+			if dps := c.P.N.DB.Payloads(); i < len(dps) {
+				bz, _ := dps[i].MarshalBinary()
+				cp := new(types.Data)
+				_ = cp.UnmarshalBinary(bz)
+				_ = f.N.DStore.Append(context.Background(), cp)
+			}
+		}
+	}
 	// P2P: header items that pass the P2P library's admission sequence enter the header store double,
 	// in front of the genuine header of that height (which then cannot enter: the slot is taken)
 	if withAdv {
@@ -444,12 +485,12 @@ func run(sc Scenario, dir string) world.Verdict {
 				couldApply = true
 			}
 		}
-		fa, v := runWorld(c, items, false, root+"/a")
+		fa, v := runWorld(c, items, false, root+"/a", sc.P2POnly)
 		if v != nil {
 			return *v
 		}
 		defer fa.Stop()
-		fb, v := runWorld(c, items, true, root+"/b")
+		fb, v := runWorld(c, items, true, root+"/b", sc.P2POnly)
 		if v != nil {
 			return *v
 		}
